@@ -11,8 +11,12 @@
 (* (`vis`: the visibility style, "default" | "hidden" | "protected"; a     *)
 (* symbol is externally visible iff its linkage is external AND its        *)
 (* visibility is default)                                                  *)
-(* (`base` = name without the `.N` suffix LLVM's linker gives to a renamed *)
-(* local symbol).                                                          *)
+(* (`base` = name without the `.fn.` prefix the generator gives to the     *)
+(* symbol of a function that is neither pub, main, extern nor forward      *)
+(* declared, and without the `.N` suffix LLVM's linker gives to a renamed  *)
+(* local symbol).  The symbol NAME of a private function is no part of the *)
+(* property: such a function is found by `name` or by `base`; a pub / main *)
+(* function must carry exactly its own name and be visible.                *)
 (*                                                                         *)
 (* The stricter table the generator implements today (everything else      *)
 (* private, heads declared external) is kept as StrictOK: a difference     *)
@@ -32,8 +36,8 @@ DefinesAll(ds, syms) ==
     \A i \in Idx(ds) : IsFn(ds[i]) =>
         \E j \in Idx(syms) :
             /\ syms[j].kind = "define"
-            /\ syms[j].name = ds[i].name
-            /\ MustBeExternal(ds[i]) => Visible(syms[j])
+            /\ IF MustBeExternal(ds[i]) THEN syms[j].name = ds[i].name /\ Visible(syms[j])
+                                         ELSE (syms[j].name = ds[i].name \/ syms[j].base = ds[i].name)
 
 \* In the linked program every externally visible function must be defined and external.  A function
 \* that is neither pub nor main has local linkage; LLVM's linker drops local symbols of the linked-in
@@ -62,8 +66,9 @@ LinkedOK(mods, syms) == /\ \A m \in Idx(mods) : DefinesAllLinked(mods[m], syms)
 \* what generator.rs does today (model A): private unless pub / main; heads are declared external
 StrictOK(ds, syms) ==
     /\ \A i \in Idx(ds) : IsFn(ds[i]) =>
-         \E j \in Idx(syms) : /\ syms[j].kind = "define" /\ syms[j].name = ds[i].name
-                              /\ syms[j].linkage = (IF MustBeExternal(ds[i]) THEN "external" ELSE "private")
+         \E j \in Idx(syms) : /\ syms[j].kind = "define"
+                              /\ IF MustBeExternal(ds[i]) THEN syms[j].name = ds[i].name /\ syms[j].linkage = "external"
+                                 ELSE (syms[j].name = ds[i].name \/ syms[j].base = ds[i].name) /\ syms[j].linkage = "private"
     /\ \A i \in Idx(ds) : (IsHead(ds[i]) /\ ~\E q \in Idx(ds) : IsFn(ds[q]) /\ ds[q].name = ds[i].name) =>
          \E j \in Idx(syms) : /\ syms[j].kind = "declare" /\ syms[j].name = ds[i].name
                               /\ syms[j].linkage = "external"
